@@ -5,6 +5,7 @@ would be skipped): LREM with adjacent matches then removes the wrong / too few o
 import re
 from facts import callee, op_local, op_place, op_is_const, const_int
 import cfg, shared, prov, rules_cmd
+from shared import ENGINE
 
 REMOVE_AT = re.compile(r"^std::(collections::VecDeque|vec::Vec)::<.*>::(remove|swap_remove|swap_remove_back|swap_remove_front)$")
 
@@ -367,3 +368,104 @@ def rule_hash_lastwins(ctx, R):
                 R.finding(fn, "field-insert:vacant-only",
                           "%s stores a field through the entry API only when the entry is vacant (line %d): a later occurrence of the same field in one HSET / HMSET is dropped, so the first value wins where the last one must" % (fn.split("::")[-1], b.bb_line(i)), b.loc(i))
     R.floor("field_map_writers", n)
+
+
+# ---- R-SRAND-REPEAT -------------------------------------------------------------------------------
+def rule_srand_repeat(ctx, R):
+    """SRANDMEMBER with a negative count answers exactly |count| picks, with repetition: the loop
+    that draws one member per iteration (`choose`) runs a number of times that does not depend on
+    the set's cardinality (no `len()` / `min(.., len)` on the provenance of the loop's range end).
+    Capping it at the cardinality answers too few elements for |count| > SCARD."""
+    import taint
+    n = 0
+    for fn, b in sorted(ctx.prog.bodies.items()):
+        if not fn.startswith(ENGINE) or "::tests::" in fn or b.kind == "Closure":
+            continue
+        lps = cfg.loops(b)
+        for h, body in lps.items():
+            picks = [x for x in body if b.term(x)["k"] == "call" and re.search(r"(SliceRandom|IteratorRandom|IndexedRandom)>::choose(::<.*>)?$", b.term(x)["f"] or "")]
+            if not picks:
+                continue
+            # the range this loop iterates
+            its = [x for x in range(len(b.bbs)) if b.term(x)["k"] == "call" and re.search(r"Range<usize> as std::iter::IntoIterator>::into_iter$|Range<u64> as std::iter::IntoIterator>::into_iter$|RangeInclusive<usize> as std::iter::IntoIterator>::into_iter$", b.term(x)["f"] or "") and b.term(x)["t"] in cfg.bwd(b, [h]) | {h}]
+            for x in its:
+                t = b.term(x)
+                ends = taint.range_ends(b, t["a"][0]) if t["a"] and not op_is_const(t["a"][0]) else None
+                if not ends or op_is_const(ends[1]):
+                    continue
+                n += 1
+                P = prov.operand_origins(b, ends[1], deep=True)
+                capped = P.has_call(r"::len$")
+                R.inst(fn, "repeat-picks@%d" % b.bb_line(x), {"function": fn, "at": b.loc(x), "iterations_depend_on_the_cardinality": capped})
+                if capped:
+                    R.finding(fn, "repeat-picks:capped-at-cardinality",
+                              "%s draws its with-repetition picks in a loop (line %d) whose iteration count is derived from the collection's length: a negative count larger than the cardinality answers fewer elements than asked for" % (fn.split("::")[-1], b.bb_line(x)), b.loc(x))
+    R.floor("repeat_pick_loops", n)
+
+
+# ---- R-RANGE-START --------------------------------------------------------------------------------
+_DATA_READ = re.compile(r"Index(Mut)?<.*>>::index(_mut)?$|::range_by_rank$|::to_vec$|::iter$|Iterator>::(skip|take|nth)$|::get$|::range(::<.*>)?$|::drain(::<.*>)?$|::split_off$|::truncate$|::extend_from_slice$")
+
+
+def range_start_issues(ctx, fn, b):
+    """for a function with two signed index parameters (start, stop): comparisons of a value that
+    derives from START (and not from stop) with 0 whose `negative` edge can no longer reach the
+    data the other edge reads -- i.e. `resolved start < 0` is answered with the empty result
+    instead of being clamped to the first element"""
+    sp = [l for l in range(1, b.nargs + 1) if re.match(r"^(isize|i64)$", b.locals[l] or "")]
+    if len(sp) != 2:
+        return None
+    start, stop = sp
+    out = []; ncmp = 0
+    for x, bb in enumerate(b.bbs):
+        if bb.get("cleanup"):
+            continue
+        t = bb["t"]
+        if t["k"] != "switch" or op_is_const(t["d"]):
+            continue
+        dl = op_local(t["d"])
+        for st in bb["s"]:
+            if st["k"] == "=" and st["l"]["l"] == dl and st["r"]["k"] == "bin" and st["r"]["op"] in ("Lt", "Ge", "Le", "Gt"):
+                a, c = st["r"]["a"], st["r"]["b"]
+                if op_is_const(c) and not op_is_const(a) and str(c.get("v")) == "0" and st["r"]["op"] in ("Lt", "Ge"):
+                    ps = prov.operand_origins(b, a, deep=True).params()
+                    if start in ps and stop not in ps:
+                        ncmp += 1
+                        ts = dict(t["ts"]); zero = ts.get(0); other = t["o"]
+                        # Lt: true (non-zero) = negative; Ge: false (zero) = negative
+                        neg = other if st["r"]["op"] == "Lt" else zero
+                        pos = zero if st["r"]["op"] == "Lt" else other
+                        if neg is None or pos is None or neg == pos:
+                            continue
+                        rn = cfg.fwd(b, [neg]); rp = cfg.fwd(b, [pos])
+                        reads_p = {y for y in rp if b.term(y)["k"] == "call" and _DATA_READ.search(b.term(y)["f"] or "")}
+                        reads_n = {y for y in rn if b.term(y)["k"] == "call" and _DATA_READ.search(b.term(y)["f"] or "")}
+                        if reads_p and not reads_n:
+                            out.append(x)
+    return out, ncmp
+
+
+def rule_range_start(pid):
+    names = {"C01": ("GETRANGE",), "C03": ("LRANGE", "LTRIM"), "C04": ("ZRANGE", "ZREVRANGE")}[pid]
+
+    def rule(ctx, R):
+        """a START index that is still below 0 after counting from the end means `from the first
+        element` (GETRANGE / LRANGE / LTRIM / ZRANGE): no test `start < 0` sends the command to
+        its empty answer while the other edge goes on to read the data."""
+        reach = rules_cmd.arms_reach(ctx, names)
+        n = 0
+        for fn in sorted(reach):
+            b = ctx.prog.bodies.get(fn)
+            if b is None or b.kind == "Closure" or "::tests::" in fn:
+                continue
+            res = range_start_issues(ctx, fn, b)
+            if res is None:
+                continue
+            bad, ncmp = res
+            n += 1
+            R.inst(fn, "range-start", {"function": fn, "start_sign_tests": ncmp, "negative_start_answered_empty": len(bad)})
+            for x in bad:
+                R.finding(fn, "range-start:negative-start-is-empty",
+                          "%s answers the empty result when the start index is still negative after counting from the end (test at line %d): it means `from the first element` (GETRANGE k -100 4 on 'Hello World' is 'Hello')" % (fn.split("::")[-1], b.bb_line(x)), b.loc(x))
+        R.floor("two_index_range_functions", n)
+    return rule
